@@ -116,7 +116,7 @@ class PersistentRemoteWorker(PersistentWorker, RemoteWorker):
                 logger.info(f'Final result received')
                 self._result = result
                 try:
-                    self._user_state = recv_msg(self._socket, comment='data: user state')
+                    self._final_user_state = (recv_msg(self._socket, comment='data: user state'), )
                     logger.debug('User state received')
                 except:
                     pass
